@@ -1269,6 +1269,7 @@ def _slices_loop(fa, out, fn, what):
             env[nm] = Lin(0)                  # set to 0 before the loop and never updated in it
     rc = {}                                   # names -> 'data' / 'row' / 'col' (parts of the as_coo_info result)
     info_names = set()                        # names bound to the whole as_coo_info result
+    slice_names = {}                          # names bound to slice(lo, hi): name -> (lo, hi)
     problems = []
     recorded = None
     fills = {}
@@ -1296,6 +1297,16 @@ def _slices_loop(fa, out, fn, what):
             a, b = lin(e.left), lin(e.right)
             return a + b if isinstance(e.op, ast.Add) else a - b
         raise Unknown(e)
+
+    def bounds(sl):
+        """(lo, hi) of a subscript index that is `lo:hi`, `slice(lo, hi)` or a name bound to one."""
+        if isinstance(sl, ast.Slice) and sl.step is None and sl.lower is not None and sl.upper is not None:
+            return lin(sl.lower), lin(sl.upper)
+        if isinstance(sl, ast.Call) and astx.call_name(sl) == 'slice' and len(sl.args) == 2 and not sl.keywords:
+            return lin(sl.args[0]), lin(sl.args[1])
+        if isinstance(sl, ast.Name) and sl.id in slice_names:
+            return slice_names[sl.id]
+        return None
 
     full_ok = None
 
@@ -1340,6 +1351,13 @@ def _slices_loop(fa, out, fn, what):
                     if isinstance(v, ast.Name) and v.id in rc:
                         rc[t.id] = rc[v.id]
                         continue
+                    if isinstance(v, ast.Call) and astx.call_name(v) == 'slice':
+                        b = bounds(v)
+                        if b is None:
+                            raise Unknown(st, 'slice(...) temporary not understood')
+                        slice_names[t.id] = b
+                        continue
+                    slice_names.pop(t.id, None)
                     try:
                         env[t.id] = lin(v)
                     except Unknown:
@@ -1350,19 +1368,18 @@ def _slices_loop(fa, out, fn, what):
                 if isinstance(t, ast.Subscript):
                     tp = fa.xp(t.value, fa.at(st)) or astx.path(t.value)
                     if tp == 'self._coo_slices':
-                        if not (isinstance(v, ast.Call) and astx.call_name(v) == 'slice' and len(v.args) == 2):
+                        b = bounds(v)
+                        if b is None or isinstance(v, ast.Slice):
                             raise Unknown(st, 'stored value is not slice(start, end)')
                         if astx.path(t.slice) != key_var:
                             problems.append((st, f'slice stored under `{astx.src(t.slice)}`, not under the loop key',
                                              'slice-key'))
-                        recorded = (st, lin(v.args[0]), lin(v.args[1]))
+                        recorded = (st, b[0], b[1])
                         continue
-                    if isinstance(t.slice, ast.Slice) and isinstance(v, ast.Name) and v.id in rc:
-                        fills[tp] = (st, lin(t.slice.lower), lin(t.slice.upper), rc[v.id])
-                        continue
-                    r = part_of(v, st)
-                    if isinstance(t.slice, ast.Slice) and r is not None:
-                        fills[tp] = (st, lin(t.slice.lower), lin(t.slice.upper), r)
+                    b = bounds(t.slice)
+                    r = rc.get(v.id) if isinstance(v, ast.Name) else part_of(v, st)
+                    if b is not None and r is not None:
+                        fills[tp] = (st, b[0], b[1], r)
                         continue
             if isinstance(st, ast.AugAssign) and isinstance(st.target, ast.Name) and st.target.id in env \
                     and isinstance(st.op, (ast.Add, ast.Sub)):
@@ -3415,7 +3432,17 @@ selftest(
            '        else:\n'
            '            target[where] += values\n', 'C11.accum'),
 
+    Mutant('named-slice-shape-taken-before-end-update', COO,
+           '            end = start + r.size\n            rows[start:end] = r\n            cols[start:end] = c\n'
+           '            self._coo_slices[key] = slice(start, end)\n',
+           '            sub_slice = slice(start, end)\n            end = start + r.size\n            rows[start:end] = r\n'
+           '            cols[start:end] = c\n            self._coo_slices[key] = sub_slice\n', 'C11.slices'),
+
     # ---- twins
+    Twin('twin-coo-build-named-slice', COO,
+         '            rows[start:end] = r\n            cols[start:end] = c\n            self._coo_slices[key] = slice(start, end)\n',
+         '            sub_slice = slice(start, end)\n            rows[sub_slice] = r\n            cols[sub_slice] = c\n'
+         '            self._coo_slices[key] = sub_slice\n'),
     Twin('twin-dense-coo-branch-in-helper', DENSE, '        else:\n            self._coo.data[self._coo_slices[subjac.key]] = subjac.get_as_coo_data(randgen)\n            if subjac.factor is not None:\n                self._coo.data[self._coo_slices[subjac.key]] *= subjac.factor\n',
          '        else:\n            self._update_coo_from_submat(subjac, randgen)\n\n    def _update_coo_from_submat(self, subjac, randgen):\n        self._coo.data[self._coo_slices[subjac.key]] = subjac.get_as_coo_data(randgen)\n        if subjac.factor is not None:\n            self._coo.data[self._coo_slices[subjac.key]] *= subjac.factor\n'),
     Twin('twin-csc-accumulate-in-helper-keyword-args', CSC,
